@@ -52,6 +52,17 @@ class AtomTheory(SpecTheory):
     def getattr_other(self, ex, o, attr):
         return None
 
+    def external(self, ex, mod, name):
+        if mod.startswith("packaging") and name == "Specifier":
+            return _InvalidSpecifierCtor()
+        return None
+
+    def call_other(self, ex, f, args, kw):
+        if isinstance(f, _InvalidSpecifierCtor):
+            # well-defined string atom: op + literal is not a PEP 440 specifier
+            raise RaiseEx("PkgInvalidSpecifier", "not a version specifier")
+        return NotImplemented
+
     def index_env(self, ex, key):
         return ENV(key if z3.is_expr(key) else z3.StringVal(key))
 
@@ -77,3 +88,7 @@ class AtomTheory(SpecTheory):
             e = z3.Select(da.arr, k)
             ex.assume(mem(dr, e) == comb(mem(da, e), mb(e)))
         return r
+
+
+class _InvalidSpecifierCtor:
+    pass
